@@ -363,4 +363,5 @@ def main():
 
 
 if __name__ == "__main__":
-    main()
+    from framework import guarded
+    guarded("C05", main)
